@@ -10,7 +10,7 @@ listed classes. `Safe x` says that `x` returns a value: no exception of any clas
 HTTP exception either, so `Safe` is the whole claim. Termination is Lean's acceptance of the
 definitions (structural recursion; the two `while` loops carry fuel, shown never to run out).
 -/
-import WzVerif.Lemmas.HttpSafeAccept
+import WzVerif.Lemmas.HttpSafeKeys
 import WzVerif.Lemmas.HttpTermEtag
 namespace Wz.Props.C07
 open Wz Wz.Http
@@ -57,30 +57,26 @@ theorem parseOptions_scanner_terminates (f1 f2 : Nat) (rest : Str) (acc : List (
 
 example : "a=1; b=\"x;y\"; ;c".toList.length < 40 := by decide
 
-/-! ### Accept headers (finding F07g) -/
+/-! ### Accept headers -/
 
-/-- `parse_accept_header` re-serialises the parameters of every item with `dump_options_header`,
-which indexes `key[-1]`. The F07e repair drops a parameter named `*`, but a parameter named `*0`
-(an RFC 2231 continuation marker with nothing before it) still leaves an **empty key** in the
-options of `parse_options_header`: -/
+/-- regression F07g: a parameter named only by a continuation marker (`*0`) is dropped, as one named
+only `*` is (F07e) -/
 theorem parseOptions_continuation_only_key :
-    parseOptionsHeader "text/html;*0=x".toList = .ok ("text/html".toList, [([], ['x'])]) := by decide
+    parseOptionsHeader "text/html;*0=x".toList = .ok ("text/html".toList, [])
+    ∧ parseAcceptHeader "text/html;*0=x".toList = .ok [("text/html".toList, "1".toList)] := by decide
 
-/-- ... and the full-strength statement `∀ s, Safe (parseAcceptHeader s)` is therefore **false**
-(known finding F07g; replay `Accept: text/html;*0=x` ⇒ IndexError on the real code). -/
-theorem parseAccept_total_safe_full_false :
-    ¬ (∀ s : Str, Safe (parseAcceptHeader s)) := by
-  intro h
-  obtain ⟨v, hv⟩ := h "text/html;*0=x".toList
-  have : parseAcceptHeader "text/html;*0=x".toList = .error "IndexError" := by decide
-  rw [this] at hv
-  cases hv
+/-- consequently every parameter name `parse_options_header` returns is non-empty ... -/
+theorem parseOptions_keys_nonempty (s v : Str) (opts : Dict Str) (h : parseOptionsHeader s = .ok (v, opts)) :
+    ∀ x ∈ opts, x.1 ≠ [] := parseOptionsHeader_keys s v opts h
 
-/-- `parse_accept_header(s)` returns its list for every `s` none of whose items carries a parameter
-with an empty name (exactly the family excluded by F07g): the `q` value is converted with `float`
-only after the regex matched, and `key[-1]` is applied to non-empty keys only. -/
-theorem parseAccept_total_safe_partial (s : Str) (h : ∀ item ∈ parseListHeader s, NoEmptyKey item) :
-    Safe (parseAcceptHeader s) := parseAcceptHeader_safe_partial s h
+/-- ... and `parse_accept_header(s)` returns its list for **every** text `s`: the `q` value is
+converted with `float` only after the regex matched, and `dump_options_header`'s `key[-1]` only
+ever sees the non-empty names above. -/
+theorem parseAccept_total_safe (s : Str) : Safe (parseAcceptHeader s) := parseAcceptHeader_safe s
+
+/-- what reverting either repair exposes: the dumper does raise on an empty name -/
+theorem dumpOptions_needs_nonempty_key :
+    dumpOptionsHeader (some ['a']) [([], some ['x'])] = .error "IndexError" := by decide
 
 example : parseAcceptHeader "text/html;level=1;q=0.5, */*;q=0.1, x;q=2".toList
     = .ok [("text/html; level=1".toList, "0.5".toList), ("*/*".toList, "0.1".toList)] := by decide +kernel
@@ -159,10 +155,10 @@ theorem request_scalar_attrs_total_safe (a b : Option Str) :
 --   through `urllib.parse.urlsplit(...).port/.hostname`, which raise ValueError for a non-numeric or
 --   out-of-range port and for unbalanced / invalid `[...]`. `urlsplit` is Python's and is not
 --   modelled; the failing family is replayed on the real code by the harness on every run.
--- OPEN (known finding F07f): `parse_date` catches (TypeError, ValueError) around
---   `email.utils.parsedate_to_datetime`, which raises OverflowError for numbers that do not fit a
---   C int / long (year, hour, or zone such as `+99999999999999999999`). `email.utils` is Python's;
---   the general date parser is not modelled (only its IMF-fixdate restriction, Model/Date.lean).
+-- OPEN: `parse_date` wraps `email.utils.parsedate_to_datetime` in
+--   `except (TypeError, ValueError, OverflowError)` (OverflowError since repair c7e3c04, former
+--   finding F07f). `email.utils` is Python's; which classes it can raise is not modelled (only its
+--   IMF-fixdate restriction, Model/Date.lean) - the oracle of stream `hostile` watches it.
 -- OPEN: the remaining `Request` attributes are one header lookup followed by one of the parsers
 --   above (their safety is the parser's), or go through cookies / form parsing / URL assembly, which
 --   are other properties' models; all of them are exercised on the real code by stream `hostile`.
